@@ -587,6 +587,14 @@ struct H : Handler {
             }
             return "T " + (out.empty() ? std::string("-") : out);
         }
+        if (name == "reload") {   // reload <dst> <src>: dst is constructed from a dump of src
+            std::size_t d = u64(c.next());
+            field_t & f = get(c);
+            std::stringstream ss;
+            f.dump(ss);
+            slots[d].emplace(ss);
+            return "OK";
+        }
         if (name == "copy") {   // copy construct: dst src
             std::size_t d = u64(c.next());
             field_t & f = get(c);
